@@ -674,4 +674,112 @@ example : RefVerifyTotal descSq := refVerifyTotal descSq descSq_cols
 
 end total
 
+/-! ## the second panic verdict is real too -/
+
+/-- two columns over 16 rows: x' = x^3 + y, y' = y + 1 (a counter), two exemptions; asserted: the first cell of x
+    and the counter at steps 0 and 8 (a sequence assertion with stride 8)
+    (`w=2;l=16;e=2;j=1;p=;g=S?:+^3c0c1,I;t=3:-n0+^3c0c1,1:-n1+c1k1;a=s0.0,q1.0.8`) -/
+def descSeq : Desc where
+  air := ⟨2, 16, 2, [],
+    [.sub (.nxt 0) (.add (.pow 3 (.cur 0)) (.cur 1)), .sub (.nxt 1) (.add (.cur 1) (.const 1))],
+    [⟨.single, 0, 0, 0⟩, ⟨.sequence, 1, 0, 8⟩]⟩
+  degs := [⟨3, []⟩, ⟨1, []⟩]
+
+/-- an honest proof for `descSeq` (options 4.4.0.2.4.3, quadratic extension) whose log2-trace-length byte was changed
+    from 4 to 3: the LDE domain shrinks from 64 to 32 points, the FRI schedule still has one layer, so
+    `VerifierChannel::new` parses everything; `verify` then builds the boundary constraints for a trace of 8 rows
+    and `prepare_assertions` panics on the stride-8 sequence of 2 values (`refv` line tagged
+    `shape:context.trace_info` of the thorough run: the real `verify` panics) -/
+def seqLen8 : List Nat :=
+  [2, 0, 0, 3, 0, 0, 8, 1, 0, 0, 0, 255, 255, 255, 255, 4, 4, 0, 2, 4, 3, 4, 128, 0, 159, 170, 23, 51, 37, 208,
+   119, 39, 174, 196, 134, 44, 153, 139, 161, 167, 17, 17, 159, 188, 156, 33, 10, 5, 8, 89, 245, 23, 90, 81, 170,
+   7, 226, 54, 204, 123, 52, 14, 130, 120, 145, 155, 164, 59, 35, 217, 194, 224, 196, 141, 57, 168, 242, 142, 149,
+   200, 29, 139, 38, 165, 147, 123, 153, 243, 212, 97, 108, 32, 221, 191, 184, 150, 89, 118, 205, 206, 153, 35,
+   229, 243, 199, 247, 246, 162, 18, 48, 228, 140, 51, 127, 87, 168, 88, 151, 131, 227, 136, 72, 198, 193, 75, 144,
+   168, 218, 91, 108, 162, 138, 68, 214, 191, 40, 23, 181, 15, 32, 107, 109, 217, 187, 254, 9, 191, 157, 100, 201,
+   58, 16, 64, 0, 0, 0, 248, 52, 99, 172, 187, 88, 91, 250, 12, 2, 220, 226, 166, 7, 92, 186, 88, 42, 192, 86, 119,
+   126, 32, 164, 254, 52, 55, 72, 88, 10, 85, 54, 35, 42, 195, 142, 168, 197, 10, 249, 196, 153, 118, 173, 115,
+   103, 130, 5, 253, 40, 102, 72, 97, 169, 215, 252, 198, 31, 44, 47, 92, 172, 203, 140, 5, 2, 0, 0, 4, 4, 165, 74,
+   117, 57, 105, 184, 169, 161, 16, 250, 253, 7, 235, 222, 146, 207, 184, 178, 144, 139, 85, 221, 38, 248, 226,
+   101, 7, 178, 2, 199, 213, 161, 44, 220, 133, 5, 145, 94, 122, 117, 252, 147, 25, 40, 54, 47, 177, 246, 116, 249,
+   201, 10, 25, 190, 108, 47, 129, 83, 118, 68, 55, 116, 92, 146, 143, 186, 39, 95, 227, 123, 146, 130, 85, 118,
+   28, 244, 203, 10, 41, 37, 108, 188, 139, 227, 117, 214, 240, 248, 74, 69, 41, 87, 181, 74, 154, 94, 77, 51, 106,
+   24, 194, 242, 74, 245, 8, 92, 211, 12, 18, 57, 104, 235, 11, 31, 192, 212, 61, 14, 221, 230, 172, 239, 57, 144,
+   8, 0, 172, 164, 4, 134, 204, 197, 136, 68, 231, 22, 21, 147, 52, 179, 213, 177, 187, 60, 49, 88, 154, 7, 233,
+   41, 194, 28, 15, 138, 55, 137, 155, 57, 18, 251, 54, 240, 232, 159, 244, 74, 103, 37, 137, 2, 67, 42, 157, 38,
+   92, 51, 44, 172, 67, 221, 110, 112, 7, 122, 103, 114, 66, 47, 180, 225, 220, 142, 3, 10, 161, 251, 51, 52, 254,
+   198, 212, 79, 152, 240, 22, 141, 219, 195, 86, 219, 182, 116, 230, 212, 220, 175, 121, 190, 196, 109, 243, 235,
+   27, 143, 227, 4, 54, 188, 76, 136, 11, 251, 0, 187, 118, 232, 72, 160, 200, 90, 186, 125, 8, 36, 202, 169, 6,
+   60, 213, 181, 103, 36, 169, 179, 138, 212, 124, 4, 3, 214, 119, 148, 136, 31, 233, 74, 132, 39, 233, 155, 77,
+   113, 21, 56, 19, 24, 115, 208, 182, 224, 94, 111, 217, 75, 249, 123, 68, 33, 0, 211, 116, 215, 255, 149, 84,
+   130, 190, 144, 166, 9, 222, 45, 220, 149, 42, 162, 43, 29, 224, 130, 36, 142, 223, 130, 4, 195, 188, 255, 94,
+   151, 61, 248, 60, 31, 212, 113, 91, 234, 154, 212, 106, 133, 21, 188, 22, 90, 112, 42, 68, 196, 238, 131, 132,
+   27, 205, 43, 111, 92, 180, 135, 123, 41, 226, 92, 172, 20, 104, 72, 22, 199, 166, 99, 63, 62, 240, 172, 252, 62,
+   105, 126, 31, 227, 109, 101, 220, 100, 36, 199, 60, 198, 106, 136, 91, 251, 208, 176, 4, 237, 144, 171, 238,
+   241, 86, 128, 168, 127, 191, 111, 212, 218, 253, 149, 215, 68, 175, 77, 229, 248, 142, 42, 27, 80, 184, 70, 4,
+   209, 84, 226, 122, 34, 40, 107, 201, 234, 216, 165, 38, 201, 154, 137, 54, 161, 176, 123, 202, 208, 50, 44, 206,
+   216, 248, 140, 222, 226, 124, 216, 189, 58, 92, 171, 179, 27, 174, 91, 45, 126, 15, 15, 94, 33, 5, 209, 144,
+   109, 9, 209, 173, 12, 22, 214, 142, 218, 72, 135, 104, 39, 189, 31, 106, 107, 110, 38, 14, 0, 53, 23, 77, 64,
+   108, 25, 252, 190, 125, 93, 170, 168, 167, 145, 255, 200, 228, 104, 70, 66, 96, 239, 5, 167, 226, 158, 40, 227,
+   101, 224, 5, 128, 0, 0, 0, 157, 151, 133, 30, 189, 8, 217, 86, 97, 123, 119, 83, 86, 228, 252, 82, 131, 61, 191,
+   208, 183, 121, 34, 86, 34, 240, 92, 97, 208, 178, 55, 204, 34, 58, 74, 73, 233, 237, 157, 151, 36, 98, 87, 27,
+   18, 127, 159, 244, 121, 220, 255, 94, 2, 196, 133, 180, 146, 107, 227, 69, 185, 253, 205, 207, 115, 93, 55, 222,
+   74, 91, 101, 134, 11, 121, 105, 75, 240, 38, 34, 34, 77, 183, 150, 202, 150, 23, 42, 161, 25, 192, 247, 230, 6,
+   43, 219, 194, 174, 60, 39, 45, 246, 71, 129, 17, 187, 233, 60, 231, 219, 89, 151, 80, 242, 18, 182, 7, 208, 95,
+   37, 204, 196, 61, 5, 243, 78, 27, 76, 219, 5, 2, 0, 0, 4, 4, 124, 117, 44, 31, 125, 211, 255, 83, 247, 14, 78,
+   51, 44, 219, 200, 60, 57, 116, 84, 215, 147, 44, 204, 177, 30, 101, 80, 74, 192, 209, 135, 0, 250, 11, 163, 247,
+   113, 220, 122, 243, 92, 53, 2, 195, 27, 226, 139, 73, 82, 111, 89, 88, 78, 169, 218, 221, 29, 231, 36, 67, 97,
+   79, 97, 16, 153, 127, 1, 213, 136, 202, 235, 133, 88, 132, 96, 247, 53, 224, 178, 97, 72, 109, 169, 228, 74, 59,
+   145, 109, 147, 11, 41, 163, 210, 125, 79, 238, 24, 55, 215, 75, 229, 80, 137, 242, 44, 140, 13, 23, 200, 161, 9,
+   1, 243, 32, 14, 160, 102, 31, 29, 83, 181, 177, 96, 204, 90, 250, 222, 89, 4, 225, 31, 24, 227, 98, 88, 129, 0,
+   90, 249, 222, 30, 157, 109, 8, 139, 94, 84, 73, 116, 183, 57, 58, 85, 162, 79, 100, 160, 231, 36, 21, 186, 7,
+   132, 198, 248, 88, 163, 106, 100, 205, 215, 81, 4, 14, 247, 150, 80, 120, 165, 175, 172, 65, 16, 196, 173, 230,
+   61, 16, 127, 103, 156, 74, 68, 62, 157, 73, 70, 28, 207, 98, 219, 219, 84, 20, 128, 212, 74, 133, 89, 4, 233,
+   183, 225, 236, 122, 165, 167, 86, 73, 184, 69, 96, 196, 229, 83, 238, 138, 166, 160, 29, 249, 122, 55, 42, 39,
+   127, 110, 31, 41, 5, 106, 79, 62, 238, 172, 51, 178, 78, 138, 97, 170, 240, 3, 29, 183, 86, 99, 4, 241, 114, 16,
+   95, 69, 137, 177, 110, 93, 154, 100, 175, 60, 35, 166, 123, 232, 122, 62, 129, 136, 118, 225, 152, 243, 209,
+   181, 143, 22, 94, 204, 202, 189, 2, 133, 115, 66, 165, 20, 65, 134, 241, 110, 79, 220, 0, 14, 74, 41, 199, 251,
+   98, 73, 186, 106, 78, 204, 46, 34, 62, 85, 62, 134, 64, 43, 27, 68, 120, 32, 190, 66, 196, 129, 2, 104, 7, 157,
+   222, 100, 89, 157, 238, 156, 192, 161, 20, 234, 195, 221, 182, 210, 85, 213, 233, 123, 186, 103, 235, 148, 163,
+   23, 101, 207, 153, 138, 192, 40, 70, 153, 166, 81, 27, 41, 198, 183, 226, 37, 240, 243, 55, 207, 246, 112, 142,
+   74, 31, 254, 96, 4, 79, 28, 153, 255, 145, 8, 189, 240, 176, 219, 109, 118, 185, 216, 215, 183, 215, 136, 110,
+   106, 87, 125, 85, 174, 212, 126, 75, 196, 176, 252, 220, 112, 90, 119, 255, 152, 16, 158, 232, 203, 158, 49,
+   179, 32, 79, 57, 129, 130, 133, 113, 65, 143, 64, 233, 39, 248, 250, 238, 187, 157, 152, 173, 2, 229, 136, 85,
+   55, 101, 189, 205, 37, 230, 45, 185, 240, 121, 102, 220, 190, 9, 81, 243, 147, 216, 63, 111, 155, 0, 33, 153,
+   10, 237, 120, 122, 148, 139, 117, 186, 252, 120, 173, 237, 167, 238, 246, 156, 199, 167, 15, 215, 60, 211, 159,
+   102, 201, 232, 207, 131, 127, 229, 67, 117, 221, 229, 160, 12, 107, 235, 65, 0, 2, 200, 30, 167, 105, 59, 215,
+   201, 34, 150, 237, 11, 6, 79, 180, 213, 129, 176, 39, 40, 240, 140, 74, 205, 97, 156, 233, 73, 73, 207, 204,
+   115, 117, 86, 129, 40, 156, 2, 29, 51, 23, 122, 120, 197, 213, 142, 141, 22, 2, 247, 147, 245, 208, 147, 189,
+   124, 26, 86, 239, 127, 194, 73, 107, 239, 47, 1, 0, 0, 32, 0, 254, 125, 244, 185, 139, 47, 133, 252, 77, 249,
+   232, 172, 228, 0, 1, 167, 26, 22, 117, 40, 19, 70, 13, 27, 55, 180, 93, 56, 57, 133, 131, 37, 1, 0, 1, 0, 0,
+   231, 183, 57, 70, 192, 128, 191, 99, 221, 212, 105, 217, 82, 121, 128, 7, 55, 126, 222, 31, 112, 131, 49, 7,
+   138, 84, 147, 91, 100, 216, 58, 174, 92, 184, 246, 43, 214, 142, 63, 77, 96, 183, 147, 151, 164, 51, 145, 100,
+   1, 121, 150, 108, 112, 83, 237, 238, 31, 189, 46, 73, 138, 164, 127, 70, 188, 4, 158, 208, 96, 137, 6, 192, 175,
+   149, 35, 131, 79, 181, 252, 75, 12, 8, 228, 142, 180, 200, 162, 195, 175, 127, 117, 33, 99, 30, 185, 120, 52,
+   87, 234, 164, 159, 68, 58, 226, 195, 214, 191, 205, 193, 188, 135, 161, 123, 32, 132, 195, 123, 142, 89, 78, 6,
+   201, 196, 36, 146, 142, 147, 177, 37, 33, 179, 175, 133, 153, 33, 175, 123, 206, 25, 112, 86, 180, 212, 63, 18,
+   83, 197, 149, 176, 185, 33, 218, 198, 186, 5, 164, 130, 151, 22, 148, 222, 65, 231, 95, 220, 221, 4, 11, 143,
+   241, 94, 245, 119, 240, 123, 182, 78, 176, 242, 173, 25, 121, 119, 103, 117, 214, 49, 130, 117, 230, 217, 96,
+   66, 198, 204, 197, 63, 67, 186, 37, 244, 25, 52, 61, 160, 45, 169, 28, 60, 1, 159, 83, 165, 154, 247, 71, 240,
+   28, 204, 128, 184, 60, 178, 26, 208, 252, 181, 210, 35, 92, 92, 61, 255, 158, 181, 2, 149, 69, 153, 138, 153,
+   135, 125, 68, 72, 230, 247, 29, 162, 44, 187, 169, 6, 214, 193, 39, 229, 0, 0, 0, 4, 2, 98, 247, 50, 254, 203,
+   117, 27, 121, 27, 151, 161, 44, 232, 253, 91, 194, 155, 68, 42, 94, 199, 53, 114, 7, 1, 254, 165, 228, 67, 149,
+   221, 3, 232, 73, 37, 8, 241, 145, 67, 68, 173, 139, 166, 79, 176, 250, 124, 151, 224, 255, 101, 124, 186, 221,
+   48, 175, 241, 141, 14, 149, 12, 225, 47, 51, 2, 74, 7, 216, 37, 169, 175, 41, 165, 7, 124, 169, 112, 47, 221,
+   161, 143, 144, 213, 40, 126, 223, 115, 209, 45, 79, 86, 152, 92, 49, 199, 20, 136, 235, 52, 22, 111, 30, 197,
+   38, 211, 227, 139, 76, 233, 0, 47, 39, 111, 19, 139, 170, 69, 180, 131, 208, 139, 53, 51, 84, 154, 209, 11, 105,
+   26, 2, 172, 155, 206, 172, 173, 144, 235, 110, 91, 60, 136, 27, 229, 26, 145, 13, 58, 169, 203, 127, 81, 205,
+   97, 195, 122, 50, 244, 201, 115, 126, 123, 40, 47, 166, 230, 236, 71, 2, 250, 67, 138, 159, 196, 91, 8, 101,
+   236, 25, 172, 9, 87, 127, 105, 13, 246, 169, 168, 36, 162, 35, 2, 27, 106, 230, 1, 207, 160, 41, 218, 96, 3, 72,
+   71, 115, 18, 76, 236, 132, 114, 35, 19, 53, 44, 249, 254, 12, 226, 97, 95, 95, 26, 154, 77, 167, 185, 228, 121,
+   64, 0, 71, 24, 232, 107, 252, 217, 109, 235, 56, 125, 167, 111, 149, 225, 66, 45, 146, 139, 167, 194, 70, 160,
+   222, 208, 189, 151, 228, 238, 84, 198, 114, 36, 7, 176, 229, 196, 90, 64, 177, 64, 52, 93, 110, 128, 122, 96,
+   123, 210, 229, 44, 178, 150, 64, 11, 85, 69, 215, 181, 196, 67, 169, 16, 249, 243, 0, 1, 0, 0, 0, 0, 0, 0, 0, 0]
+
+/-- the panic verdict `evaluate_constraints` is real: the reference verifier reports the panic of the real code -/
+theorem refVerify_evaluate_constraints_witness :
+    refVerify descSeq [6331011862963056039, 0, 8] (.optionSet [⟨4, 4, 0, 2, 4, 3⟩]) seqLen8
+      = .err (.panic "evaluate_constraints") := by
+  decide +kernel
+
 end WinterProofs.RefVerifier
